@@ -11,6 +11,15 @@ namespace SciVerif.C10
 /-- a parenthesis -/
 def Mark (e : Char) : Prop := e = '(' ∨ e = ')'
 
+/-- a parenthesis or a blank: the characters at which a match of the species pattern ends as at
+    the end of the text -/
+def EndC (e : Char) : Prop := e = '(' ∨ e = ')' ∨ e = ' '
+
+theorem Mark.endc {e : Char} (h : Mark e) : EndC e := by
+  rcases h with rfl | rfl
+  · exact Or.inl rfl
+  · exact Or.inr (Or.inl rfl)
+
 theorem tw_mark {p : Char → Bool} (l s : Str) (e : Char) (hp : p e = false) :
     (l ++ e :: s).takeWhile p = l.takeWhile p ∧ (l ++ e :: s).dropWhile p = l.dropWhile p ++ e :: s := by
   induction l with
@@ -26,11 +35,11 @@ theorem span_mark {p : Char → Bool} (l s : Str) (e : Char) (hp : p e = false) 
   simp only [Prod.mk.injEq] at h
   rw [(tw_mark l s e hp).1, (tw_mark l s e hp).2, h.1, h.2]
 
-theorem matchBrace_mark (r s : Str) (e : Char) (he : Mark e) (br r1 : Str)
+theorem matchBrace_mark (r s : Str) (e : Char) (he : EndC e) (br r1 : Str)
     (h : matchBrace r = (br, r1)) : matchBrace (r ++ e :: s) = (br, r1 ++ e :: s) := by
-  have hP : (isDig e || e == '+' || e == '-') = false := by rcases he with rfl | rfl <;> decide
-  have he1 : e ≠ '{' := by rcases he with rfl | rfl <;> decide
-  have he2 : e ≠ '}' := by rcases he with rfl | rfl <;> decide
+  have hP : (isDig e || e == '+' || e == '-') = false := by rcases he with rfl | rfl | rfl <;> decide
+  have he1 : e ≠ '{' := by rcases he with rfl | rfl | rfl <;> decide
+  have he2 : e ≠ '}' := by rcases he with rfl | rfl | rfl <;> decide
   cases r with
   | nil =>
     simp only [matchBrace] at h
@@ -92,13 +101,17 @@ theorem mark_facts (e : Char) (he : Mark e) :
     Inert e ∧ isLow e = false ∧ isDig e = false ∧ isWs e = false ∧ e ≠ ']' := by
   rcases he with rfl | rfl <;> decide
 
+theorem endc_facts (e : Char) (he : EndC e) :
+    Inert e ∧ isLow e = false ∧ isDig e = false ∧ e ≠ ']' := by
+  rcases he with rfl | rfl | rfl <;> decide
+
 /-- the part of `matchP` after the symbol -/
 def tailP (k : Nat) (sym r : Str) : Option MP :=
   some (k, sym, (matchBrace r).1, ((matchBrace r).2.span isDig).1, ((matchBrace r).2.span isDig).2)
 
-theorem tailP_mark (k : Nat) (sym r s : Str) (e : Char) (he : Mark e) :
+theorem tailP_mark (k : Nat) (sym r s : Str) (e : Char) (he : EndC e) :
     tailP k sym (r ++ e :: s) = (tailP k sym r).map (mpExt · (e :: s)) := by
-  obtain ⟨_, _, hd, _, _⟩ := mark_facts e he
+  obtain ⟨_, _, hd, _⟩ := endc_facts e he
   cases hmb : matchBrace r with
   | mk br r1 =>
     cases hsp : r1.span isDig with
@@ -137,10 +150,10 @@ theorem matchP_lb (w : Str) :
       · simp [matchP, hy, hb0]
 
 
-/-- a parenthesis ends a match of the species pattern exactly as the end of the text does -/
-theorem matchP_mark (w s : Str) (e : Char) (he : Mark e) :
+/-- a parenthesis (or a blank) ends a match of the species pattern exactly as the end of the text does -/
+theorem matchP_mark (w s : Str) (e : Char) (he : EndC e) :
     matchP (w ++ e :: s) = (matchP w).map (mpExt · (e :: s)) := by
-  obtain ⟨hin, hlow, hd, hws, hrb⟩ := mark_facts e he
+  obtain ⟨hin, hlow, hd, hrb⟩ := endc_facts e he
   cases w with
   | nil =>
     rw [List.nil_append, matchP_none e s hin]
@@ -167,7 +180,7 @@ theorem matchP_mark (w s : Str) (e : Char) (he : Mark e) :
           simp only [List.nil_append]
           split
           · rename_i heq; simp only [List.cons.injEq] at heq
-            have : (e == 'p' || e == 'n' || e == 'e') = false := by rcases he with rfl | rfl <;> decide
+            have : (e == 'p' || e == 'n' || e == 'e') = false := by rcases he with rfl | rfl | rfl <;> decide
             rw [← heq.1]; simp [this]
           · rfl
         | cons x r1 =>
@@ -221,7 +234,7 @@ theorem matchP_k (w : Str) (q : MP) (h : matchP w = some q) : q.1 ≤ w.length :
 theorem pass1At_mark (w s : Str) (e : Char) (he : Mark e) :
     pass1At (w ++ e :: s) = (pass1At w).map (· ++ e :: s) := by
   obtain ⟨hin, hlow, hd, hws, hrb⟩ := mark_facts e he
-  simp only [pass1At, matchP_mark w s e he]
+  simp only [pass1At, matchP_mark w s e he.endc]
   cases hm : matchP w with
   | none => rfl
   | some q =>
@@ -229,7 +242,7 @@ theorem pass1At_mark (w s : Str) (e : Char) (he : Mark e) :
     have hk := matchP_k w _ hm
     simp only [Option.map_some, mpExt, (tw_mark rest s e hws).2]
     have hst : startsP (rest.dropWhile isWs ++ e :: s) = startsP (rest.dropWhile isWs) := by
-      simp [startsP, matchP_mark _ s e he]
+      simp [startsP, matchP_mark _ s e he.endc]
     rw [hst]
     by_cases h1 : startsP (rest.dropWhile isWs) = true
     · simp [h1, List.append_assoc]
@@ -284,7 +297,7 @@ theorem P2_item_mark (it : Item) (s ts : Str) (e : Char) (he : Mark e) (hok : it
     P2 (it.text ++ e :: s) (it.expl ++ ts) := by
   obtain ⟨k, sym, br, hm, _, hsb⟩ := matchP_item it [] hok (Or.inl rfl) (by rintro ⟨_, c, r, e, _⟩; cases e)
   obtain ⟨c0, tl, htx, _⟩ := item_tail_inert it hok
-  have hm2 := matchP_mark (it.text ++ []) s e he
+  have hm2 := matchP_mark (it.text ++ []) s e he.endc
   rw [hm] at hm2
   simp only [List.append_nil, Option.map_some, mpExt, List.nil_append] at hm2
   intro fuel hfu
